@@ -12,15 +12,30 @@ THEOREMS = [
     {"name": "C02_transitional_only_while_active / C02_active_events_keep_going", "strength": "F",
      "text": "pausing/canceling are left as soon as a settled task event is processed with nothing active; active events "
              "never put the workflow to rest"},
-    {"name": "(tested, not proved) the link between active task executions and the provider's in-flight set; "
-             "a fail command / runtime error always ends failed", "strength": "T", "text": "monitor c02"},
+    {"name": "C02_status_classes / C02_in_progress_report_is_active", "strength": "F",
+     "text": "every status the task table can produce is completed, active, or one of paused/pending/retrying; a report "
+             "that the action is in progress always leaves the task counted as active (sweeps of the generated table)"},
+    {"name": "C02b_inflight_has_active_record / C02b_active_record_in_flight / C02b_link_auxiliary (props/C02b.v)", "strength": "F",
+     "text": "THE LINK, for the formal provider protocol (coq/model/ProviderSys.v: Boot, atomic Poll+acknowledge, Report of a "
+             "completed status for an in-flight action, status Requests, Render, Persist), for every evaluator, every "
+             "workflow without with-items tasks over a well-formed composed graph (decidable check), every fault-free "
+             "protocol history: an action is in flight iff its record is active (running); no engine command is ever in "
+             "flight; C02b_protocol_is_api_history: every protocol run is a run_ops history of API calls"},
+    {"name": "C02b_paused_canceled_idle / C02b_pausing_canceling_busy", "strength": "F",
+     "text": "in every reachable fault-free system state: paused or canceled => nothing in flight; pausing or canceling => "
+             "something in flight"},
+    {"name": "C02b_succeeded_partial", "strength": "P",
+     "text": "succeeded => nothing in flight, nothing staged, nothing active, every record completed or retrying "
+             "(excluding `retrying` needs a cross-route join invariant that is not proved)"},
+    {"name": "(tested) monitor c02, incl. with-items, intermediate action statuses (paused -> resuming -> running), runtime "
+             "errors and fail commands", "strength": "T", "text": "monitor c02 on generated histories"},
 ]
 TRUSTED_BASE = common.TRUSTED_BASE_COMMON + [
     "facts in facts/F_names.v sweep all 16 statuses x 32 flag combinations of the contextualised task-event name against "
     "every row of the generated workflow table"]
 ASSUMPTIONS = ["reference provider protocol (atomic poll); in-flight = acknowledged actions that have not reported a "
                "completed status; known finding D1"]
-FAM = progs.family(p_bad=0.06, p_retry=0.2, p_cleanup_fail=0.1, w_ctrl=1.5, p_cmd=0.25, p_fail=0.2, p_intermediate=0.0, w_malformed=0.03, n_tasks=(2, 7),
+FAM = progs.family(p_bad=0.06, p_retry=0.2, p_cleanup_fail=0.1, w_ctrl=1.5, p_cmd=0.25, p_fail=0.2, p_intermediate=0.12, lifecycle=True, w_malformed=0.03, n_tasks=(2, 7),
                    steps=(15, 70), w_rerun=0.0)
 
 
